@@ -600,6 +600,17 @@ fn shapes<B: Backend>(seed: u64, tier: Tier) -> Vec<BytesCase> {
                 push("Secret", "rsa-wrong-modulus-public-as-secret".into(), p2.clone());
                 push("Public", "rsa-wrong-modulus-secret-as-public".into(), k2.clone());
             }
+            // structurally odd private keys (well-formed DER, dishonest numbers): acceptance is not
+            // constrained here, panics - at decode time or when an accepted key is used - are
+            for i in 0..2usize {
+                for (shape, der) in crate::keypool::odd_private_keys(2048, i) {
+                    push("Secret", shape.clone(), der.clone());
+                    push("Secret", format!("{shape}-pem"), crate::props::c13::pem_encode("RSA PRIVATE KEY", &der));
+                }
+                for (shape, der) in crate::keypool::odd_private_keys(4096, i) {
+                    push("PkeSecret", shape.clone(), der.clone());
+                }
+            }
             // moduli one bit / one byte beside the allowed sizes, and common other sizes
             for (bits, der) in crate::keypool::odd_sizes() {
                 let pubder = public_bytes(ver, &der);
